@@ -116,7 +116,18 @@ func checkSessionSetExpiresAt(c *Ctx, rule string) {
 			set := false
 			for _, e := range p.Events {
 				if e.Kind == "mapupdate" && len(e.Args) == 3 && e.Args[1].Key() == key.Key() && e.Args[2].Key() == exp.Key() {
-					set = true
+					// ... into the session's own table: a field of the receiver, or a fresh map that is
+					// installed in a field of the receiver on this path (a write into a local map is lost)
+					m := e.Args[0]
+					recv := paramNamed(fn, 0)
+					if addrRoot(m).Key() == recv.Key() {
+						set = true
+					}
+					for _, st := range p.Events {
+						if st.Kind == "store" && len(st.Args) == 2 && st.Args[1].Key() == m.Key() && addrRoot(st.Args[0]).Key() == recv.Key() {
+							set = true
+						}
+					}
 				}
 				// delegation to an embedded session
 				if e.Kind == "call" && e.Name == ".SetExpiresAt" && len(e.Args) == 2 && e.Arg(0).Key() == key.Key() && e.Arg(1).Key() == exp.Key() {
@@ -288,6 +299,26 @@ func checkIntrospectDispatch(c *Ctx, rule string) {
 		}
 	}
 	c.Check(ok && n > 0, rule, role, fn, "token-use-from-validator", "Fosite.IntrospectToken returns the token use reported by the validator that accepted the token", why, w)
+	// the validators judge the very string the caller supplied: the endpoint compares the raw token with
+	// the caller's own bearer credential ("a different token"), so a token that is trimmed, unescaped or
+	// otherwise normalised on the way to the validators is a second spelling of the same credential
+	tok := paramByType(fn, "string")
+	okT, nT := true, 0
+	var wT *Path
+	whyT := ""
+	for _, p := range ex.Paths {
+		for _, e := range p.Calls(".IntrospectToken") {
+			if !e.Invoke || len(e.Args) < 2 {
+				continue
+			}
+			nT++
+			if tok == nil || e.Arg(1).Key() != tok.Key() {
+				okT, wT = false, p
+				whyT = "a validator receives " + clip(e.Arg(1).Pretty(), 60) + ", not the token string IntrospectToken was called with"
+			}
+		}
+	}
+	c.Check(okT && nT > 0, rule, role, fn, "validators-see-the-raw-token", "every validator is handed exactly the token string Fosite.IntrospectToken received", whyT, wT)
 }
 
 // Compose factories wire the provider's own collaborators: a handler built by a
@@ -884,4 +915,102 @@ func checkCanHandleExact(c *Ctx, rule string) {
 	if n < 6 {
 		c.RoleUnmatched(rule, role, fmt.Sprintf("at least 6 grant-type based CanHandleTokenEndpointRequest implementations (found %d)", n))
 	}
+}
+
+// Tokens are minted from the finished grant. The token strategies read the
+// request when they are called (a JWT access token copies GetGrantedScopes /
+// GetGrantedAudience into its claims at that moment); a request that is still
+// granted scopes or audience after GenerateAccessToken / GenerateRefreshToken
+// yields a token whose content lags behind what the response and the store say.
+func checkGrantedBeforeMint(c *Ctx, rule string) {
+	const role = "issue"
+	mint := map[string]bool{".GenerateAccessToken": true, ".GenerateRefreshToken": true, ".GenerateIDToken": true}
+	n := 0
+	for _, en := range c.allEntries() {
+		if en.role != "issue" && en.role != "authorize" || !c.P.CallsNamedAny(en.fn, 3, mint) || !c.P.RefsMethod(en.fn, 3, ".GrantScope", ".GrantAudience") {
+			continue
+		}
+		ex := c.Explore(en.fn, ExploreConfig{NoArgInline: true, Inline: func(f *ssaFunction) bool {
+			return f.Parent() != nil || handlerInline(f) && (c.P.CallsNamedAny(f, 3, mint) || c.P.RefsMethod(f, 3, ".GrantScope", ".GrantAudience"))
+		}}, "mint-order")
+		if !c.complete(ex, rule, role, en.fn) {
+			continue
+		}
+		ok, m := true, 0
+		why := ""
+		var w *Path
+		for _, p := range ex.Paths {
+			for _, e := range p.Events {
+				if e.Kind != "call" || !mint[e.Name] || len(e.Args) < 2 {
+					continue
+				}
+				m++
+				var req *Term
+				for _, a := range e.Args {
+					if a != nil && a != tCtx && !a.IsConst() && a.Type != nil && (strings.Contains(a.Type.String(), "Requester") || strings.Contains(a.Type.String(), "Request")) {
+						req = a
+					}
+				}
+				if req == nil {
+					continue
+				}
+				for _, g := range p.Events[e.Idx+1:] {
+					if g.Kind == "call" && (g.Name == ".GrantScope" || g.Name == ".GrantAudience") && g.Recv != nil && g.Recv.Key() == req.Key() {
+						ok, w = false, p
+						why = fmt.Sprintf("%s (%s) grants on the request after %s (%s) minted a token from it", g.Name, c.P.Pos(g.Instr.Pos()), e.Name, c.P.Pos(e.Instr.Pos()))
+					}
+				}
+			}
+		}
+		if m > 0 {
+			n++
+			c.Check(ok, rule, role, en.fn, "granted-before-mint", "no scope or audience is granted on a request after a token was generated from it", why, w)
+		}
+	}
+	if n < 2 {
+		c.RoleUnmatched(rule, role, fmt.Sprintf("at least 2 issuing functions that grant and mint (found %d)", n))
+	}
+}
+
+// One transport per presentation. The method gate of client authentication
+// ("a client registered for client_secret_basic must not use the body") judges
+// the transport by where credentials are *present*; it is sound only if the
+// credentials that are then verified come from that same place. The extraction
+// function returns either the header pair (when the request carries Basic
+// authentication) or the body pair — never a mixture (an id from the header
+// with a secret from the body passes neither arm of the gate).
+func checkOneTransport(c *Ctx, rule string) {
+	const role = "credential-extraction"
+	fn := c.P.Func(pkgRoot + ".clientCredentialsFromRequest")
+	if fn == nil {
+		c.RoleUnmatched(rule, role, "fosite.clientCredentialsFromRequest")
+		return
+	}
+	ex := c.Explore(fn, ExploreConfig{Inline: func(f *ssa.Function) bool { return true }}, "authn-extract")
+	if !c.complete(ex, rule, role, fn) {
+		return
+	}
+	isHeader := func(t *Term) bool { return t.Mentions(func(s *Term) bool { return s.IsCall(".BasicAuth") }) }
+	isBody := func(t *Term) bool {
+		return t.Mentions(func(s *Term) bool { return s.Op == "param" && strings.HasPrefix(s.Name, "1:") })
+	}
+	ok, n := true, 0
+	why := ""
+	var w *Path
+	for _, p := range ex.Paths {
+		if p.Kind != "return" || len(p.Rets) != 3 || p.Classify() != ExitSuccess {
+			continue
+		}
+		n++
+		id, sec := p.Rets[0], p.Rets[1]
+		switch {
+		case isHeader(id) && isHeader(sec) && !isBody(id) && !isBody(sec):
+		case isBody(id) && isBody(sec) && !isHeader(id) && !isHeader(sec):
+		case isHeader(id) && !isBody(id) && sec.Key() == tStr("").Key(), isBody(id) && !isHeader(id) && sec.Key() == tStr("").Key():
+		default:
+			ok, w = false, p
+			why = "client id " + clip(id.Pretty(), 50) + " and secret " + clip(sec.Pretty(), 50) + " do not come from one transport"
+		}
+	}
+	c.Check(ok && n >= 2, rule, role, fn, "one-transport", "the credentials handed to verification are the Basic-header pair or the body pair, never a mixture", why, w)
 }
